@@ -197,7 +197,20 @@ class Extractor:
         self._attrs = attrs
         src, m = self._load(rel)
         lo, hi = 0, len(m)
-        if '::' in qual:
+        if qual.count('::') == 2:
+            # Type::method::inner - a fn item nested in a method body (extracted as an item of its own)
+            ty, outer, name = qual.split('::')
+            found = None
+            for bo, bc in find_impl_block(src, m, ty):
+                fo = find_fn(src, m, outer, bo + 1, bc)
+                if fo and (m.count('{', bo + 1, fo['fn_kw']) - m.count('}', bo + 1, fo['fn_kw'])) == 0:
+                    found = find_fn(src, m, name, fo['body_open'] + 1, fo['body_close'])
+                    if found:
+                        break
+            if not found:
+                raise LostAnchor('nested fn %s not found in %s::%s of %s' % (name, ty, outer, rel))
+            f = found
+        elif '::' in qual:
             ty, name = qual.rsplit('::', 1)
             found = None
             for bo, bc in find_impl_block(src, m, ty):
